@@ -24,7 +24,7 @@ func ifp(k int, b ...*Node) *Node { return &Node{Op: nIf, K: k, Body: b} }
 func edit(k, variant int) *Node { return &Node{Op: nEdit, K: k, V: variant} }
 func edits(k int) []*Node {
 	var l []*Node
-	for v := 0; v < 12; v++ {
+	for v := 0; v < 15; v++ {
 		l = append(l, edit(k, v))
 	}
 	return l
